@@ -22,7 +22,7 @@ from .symlist import SymList, SymDict, from_list as _symlist_from
 
 
 class Contract:
-    def __init__(self, qual, requires=None, spec=None, doc="", permitted_raises=None, clause="", extract=None):
+    def __init__(self, qual, requires=None, spec=None, doc="", permitted_raises=None, clause="", extract=None, choices=None):
         self.qual = qual
         self.requires = requires
         self.spec = spec
@@ -34,6 +34,10 @@ class Contract:
         # I.choice and must *prove* their characterisation (claim -> obligation).  At call sites I.choice is None: the spec
         # creates fresh symbols and *assumes* the characterisation.
         self.extract = extract
+        # concrete replay of a relational contract whose result does not expose the choices: choices(concrete args) -> every
+        # admissible-looking choice dict; the real result agrees with the contract iff SOME choice whose characterisation holds
+        # reproduces it (sound: the contract is "exists a choice such that ...")
+        self.choices = choices
 
     def bind(self, interp, args, kwargs):
         m, node, cls = source.find(self.qual)
@@ -419,12 +423,15 @@ class Task:
         except Exception as e:  # noqa: BLE001
             got, real_exc = None, f"{type(e).__name__}: {e}"
         I.claim_label = self.label
+        I.replaying = True
         if self.contract.extract is not None and real_exc is None:
             try:
                 I.choice = self.contract.extract(None, got)
             except ValueError as e:
-                wit["note"] = f"not replayable: {e}"
-                return wit, False
+                if self.contract.choices is None:
+                    wit["note"] = f"not replayable: {e}"
+                    return wit, False
+                return self._replay_enumerating(wit, concs, got, real_args)
         try:
             expected = (self.spec_override or self.contract.spec)(I, *cargs)
             spec_exc = None
@@ -460,6 +467,48 @@ class Task:
             return wit, False
         wit["difference"] = d
         return wit, True
+
+
+def _replay_enumerating(self, wit, concs, got, real_args):
+    """relational contract, choices not visible in the result: try every candidate choice"""
+    from . import schema
+    from .interp import Frame
+
+    m, node, cls = source.find(self.qual)
+    tried, last = 0, None
+    for ch in self.contract.choices(concs):
+        tried += 1
+        path = Path(Engine(2000), [])
+        I = Interp(path, self.contracts, self.inline, {})
+        I.stack.append(Frame(m.name, {}, self.label + ".replay"))
+        I.claim_label = self.label
+        I.replaying = True
+        I.choice = dict(ch)
+        cargs = [it.const(I, c) for it, c in zip(self.inputs, concs)]
+        try:
+            expected = (self.spec_override or self.contract.spec)(I, *cargs)
+        except (RaiseEx, PathEnd):
+            continue
+        if any(r.status == "refuted" and ":choice." in nm for nm, r in path.engine.results.items()):
+            continue  # this choice does not satisfy its characterisation: not admissible
+        d = schema.diff(got, expected, "return")
+        if d is None:
+            for it, ra, ca in zip(self.inputs, real_args, cargs):
+                d = schema.diff(ra, ca, f"arg {it.name}")
+                if d:
+                    break
+        if d is None:
+            wit["note"] = "real code agrees with the contract on this input for an admissible choice"
+            return wit, False
+        last = d
+    if tried == 0:
+        wit["note"] = "no candidate choices"
+        return wit, False
+    wit["difference"] = f"no admissible choice (of {tried} candidates) reproduces the real result; last difference: {last}"
+    return wit, True
+
+
+Task._replay_enumerating = _replay_enumerating
 
 
 def _model(eng, path):
